@@ -184,6 +184,64 @@ theorem close_stops_all_partial :
     · simp [hd] at h3
     · exact h3
 
+/-! #### the restartable service kind (result store: no StateMachine, close signal latched in a buffered channel) -/
+
+private def KSL : List Nat := explore oneClose 5000 [encode settledL] []
+
+private def PSL (c : Core) : Bool :=
+  (!terminal c || decide (c.cpc = .idle) || decide (c.cpc = .ret)) &&
+  (!terminal c || !decide (c.cpc = .ret) || c.dropped || (c.clean && decide (c.cres = .ok))) &&
+  (!c.dropped || c.panicked) && decide (c.gs ≤ 1) && !decide (c.cres = .notRunning) && !decide (c.cres = .svcRefused)
+
+set_option maxRecDepth 100000 in
+private theorem KSL_facts :
+    (closedK oneClose KSL && KSL.contains (encode settledL) && KSL.all (fun k => PSL (decode k))) = true := by decide +kernel
+
+/-- `close_stops_all_partial` for the restartable kind — the one whose Start a panic can actually leave and re-enter:
+    from a settled recoverer, for EVERY schedule with one Close at any point (in particular: after a panic of the
+    service goroutine, anywhere inside the cool-down, at its very end, racing the restart, after the restart) and
+    every state reached: (i) the system never rests with Close half-way, (ii) at rest after Close, unless the cancel
+    signal was dropped, nothing is left and Close returned nil, (iii) a drop needs a prior panic, (iv) at most one
+    service goroutine, and (v) Close is NEVER refused — neither "not running" nor a refusal by the service: the
+    recoverer keeps `running` set throughout the cool-down, which is exactly what makes a Close in the cool-down
+    effective (the latched close signal stops the restarted Start, the buffered cancel stops serviceStart). -/
+theorem close_stops_all_partial_restartable :
+    ∀ sched c, Sched oneClose sched → runC settledL sched = some c →
+      (terminal c = true → c.cpc = .idle ∨ c.cpc = .ret) ∧
+      (terminal c = true → c.cpc = .ret → c.dropped = false → c.clean = true ∧ c.cres = .ok) ∧
+      (c.dropped = true → c.panicked = true) ∧
+      c.gs ≤ 1 ∧ c.cres ≠ .notRunning ∧ c.cres ≠ .svcRefused := by
+  intro sched c hs hr
+  have hf := KSL_facts
+  simp only [Bool.and_eq_true] at hf
+  have h := allK hf.2 (closedK_sound hf.1.1 sched settledL c (inK_of_roundtrip hf.1.2 (by decide)) hs hr)
+  simp only [PSL, Bool.and_eq_true, Bool.or_eq_true, Bool.not_eq_true', decide_eq_true_eq, decide_eq_false_iff_not] at h
+  obtain ⟨⟨⟨⟨⟨h1, h2⟩, h3⟩, h4⟩, h5⟩, h6⟩ := h
+  refine ⟨?_, ?_, ?_, h4, h5, h6⟩
+  · intro ht; rcases h1 with (h1 | h1) | h1
+    · simp [ht] at h1
+    · exact Or.inl h1
+    · exact Or.inr h1
+  · intro ht hc hd
+    rcases h2 with ((h2 | h2) | h2) | h2
+    · simp [ht] at h2
+    · exact absurd hc h2
+    · simp [hd] at h2
+    · exact h2
+  · intro hd; rcases h3 with h3 | h3
+    · simp [hd] at h3
+    · exact h3
+
+/-- … with the two runs the harness drives on the real result store: a panic that escapes Start is followed, one
+    cool-down later, by a restart after which the loop runs again; a Close anywhere inside that cool-down returns nil
+    at once and, when the cool-down is over, nothing is left -/
+theorem restartable_service_resumes_and_closes_in_cooldown :
+    (runC settledL schedRestart).map (fun c => (c.nRun, c.spc, c.running, c.panicked)) = some (1, .parked, true, true) ∧
+    (runC settledL [.gPanic, .gSendStopped, .closeCall, .cLoad, .cSvcClose, .cSignal]).map
+      (fun c => (c.cpc, c.cres, c.spc, c.running, c.latch && c.buf == some .cancelled)) = some (.ret, .ok, .cool, true, true) ∧
+    (runC settledL schedCloseDuringCoolDownL).map (fun c => (c.clean, c.cres, terminal c)) = some (true, .ok, true) :=
+  ⟨by decide, by decide, by decide⟩
+
 /-- the hypotheses are met by a non-trivial run: Close in the middle of normal operation, fair completion -/
 example : (runC settled [.closeCall, .cLoad, .cSvcClose, .gStopSeen, .gSendNil, .cWaitDone, .cSignal, .sSel, .sClear]).map
     (fun c => (terminal c, c.cpc, c.dropped, c.clean, c.cres)) = some (true, .ret, false, true, .ok) := by decide
@@ -453,101 +511,172 @@ theorem known_finding_b_exclusive (cs : Case) (o : Obs) :
   repeat' split
   all_goals simp_all
 
+/-- the two known findings are reported only for a Close issued at the very instant of the plugin's creation (inside the
+    services' start-up): a refusal at any later time — e.g. during a restart cool-down — can never be filed under them -/
+theorem known_findings_only_at_creation (cs : Case) (o : Obs)
+    (h : classify cs o = .closeBeforeRunning ∨ classify cs o = .closeBeforeServiceStart) : o.closedAtNs = 0 := by
+  rcases h with h | h
+  · have := ((known_finding_a_exclusive cs o).mp h).2.2.2
+    simp only [isCloseBeforeRunning, Bool.and_eq_true, decide_eq_true_eq] at this
+    exact this.1.1.1.1.1.1.1.1
+  · have := ((known_finding_b_exclusive cs o).mp h).2.2.2.2
+    simp only [isCloseBeforeServiceStart, Bool.and_eq_true, decide_eq_true_eq] at this
+    exact this.1.1.1.1.1.1.1.1.1
+
 /-- the model's prediction for a Close without any panic, written out -/
-private def quietObs (cs : Case) (n k : Nat) : Obs :=
-  { survived := true, closeCalled := true, closeReturned := true, errNotRunning := n, errNotStarted := k, errOther := 0,
+private def quietObs (cs : Case) (t n k : Nat) : Obs :=
+  { survived := true, closeCalled := true, closeReturned := true, closedAtNs := t, errNotRunning := n, errNotStarted := k, errOther := 0,
     leakedServiceStart := n, leakedService := n + k, leakedAux := 0, leakedInflight := 0, ticking := decide (n + k > 0),
     bubbleEnded := decide (k = 0), after2ndServiceStart := 0, after2ndService := k,
     panicsInjected := 0, resumed := true, resumedWithinNs := cs.intervalNs, othersTicked := true, pipelineDone := true }
 
-private theorem predict_nopanic (fx : Fixes) (cs : Case) (n k : Nat) : predict fx cs n k true 0 = quietObs cs n k := by
+private theorem predict_nopanic (fx : Fixes) (cs : Case) (n k : Nat) : predict fx cs 0 n k true 0 = quietObs cs 0 n k := by
   simp [predict, quietObs, pc_a, pc_b, pc_ok, settledS, settled, init]
 
-/-- the oracle accepts the model's prediction for a plugin all of whose recoverers were settled when Close was called -/
-theorem spec_model_clean_close (fx : Fixes) (cs : Case) : spec cs (predict fx cs 0 0 true 0) = true := by
-  rw [predict_nopanic]; simp [spec, quietObs, panicOk, Obs.leak, panicClauseApplies]
+private theorem predict_nopanic_late (fx : Fixes) (cs : Case) (t n k : Nat) (ht : 0 < t) : predict fx cs t n k true 0 = quietObs cs t 0 0 := by
+  have ht' : t ≠ 0 := by omega
+  simp [predict, quietObs, pc_a, pc_b, pc_ok, settledS, settled, init, ht']
+
+/-- the oracle accepts the model's prediction for a plugin all of whose recoverers were settled when Close was called;
+    and for a Close issued after start-up has quiesced (`t > 0`) that IS the model's prediction whatever refusals were
+    observed — an implementation that refuses such a Close disagrees with the model (and gets `close-refused-after-start-up`) -/
+theorem spec_model_clean_close (fx : Fixes) (cs : Case) (t n k : Nat) (ht : 0 < t) :
+    spec cs (predict fx cs 0 0 0 true 0) = true ∧ spec cs (predict fx cs t n k true 0) = true ∧
+    (predict fx cs t n k true 0).errNotRunning = 0 ∧ (predict fx cs t n k true 0).errNotStarted = 0 := by
+  rw [predict_nopanic, predict_nopanic_late fx cs t n k ht]
+  simp [spec, quietObs, panicOk, Obs.leak, panicClauseApplies]
 
 /-- … and on the model's prediction for `n ≥ 1` recoverers closed before they were running (schedule (a)) it fails with
     exactly the known-finding string -/
 theorem spec_reports_close_before_running (fx : Fixes) (cs : Case) (n : Nat) (hn : 0 < n) :
-    spec cs (predict fx cs n 0 true 0) = false ∧
-    explain cs (predict fx cs n 0 true 0) = s!"close-before-running: Close returned not-running for {n} services and they kept running" := by
+    spec cs (predict fx cs 0 n 0 true 0) = false ∧
+    explain cs (predict fx cs 0 n 0 true 0) = s!"close-before-running: Close returned not-running for {n} services and they kept running" := by
   have hn' : n ≠ 0 := by omega
   rw [predict_nopanic]
   constructor
   · simp [spec, quietObs, Obs.leak, hn']
-  · have hc : classify cs (quietObs cs n 0) = .closeBeforeRunning := by
+  · have hc : classify cs (quietObs cs 0 n 0) = .closeBeforeRunning := by
       simp [classify, quietObs, isCloseBeforeRunning, panicOk, Obs.leak, panicClauseApplies, hn]
     unfold explain; rw [hc]; rfl
 
 /-- schedule (b) on `k ≥ 1` recoverers (and (a) on `n` more): the other known-finding string -/
 theorem spec_reports_close_before_service_start (fx : Fixes) (cs : Case) (n k : Nat) (hk : 0 < k) :
-    spec cs (predict fx cs n k true 0) = false ∧
-    explain cs (predict fx cs n k true 0) = s!"close-before-service-start: Close was refused by {k} services that had not completed their start (not-running for {n} more); they started afterwards and can no longer be closed" := by
+    spec cs (predict fx cs 0 n k true 0) = false ∧
+    explain cs (predict fx cs 0 n k true 0) = s!"close-before-service-start: Close was refused by {k} services that had not completed their start (not-running for {n} more); they started afterwards and can no longer be closed" := by
   have hk' : k ≠ 0 := by omega
   rw [predict_nopanic]
   constructor
   · simp [spec, quietObs, Obs.leak, hk']
-  · have hc : classify cs (quietObs cs n k) = .closeBeforeServiceStart := by
+  · have hc : classify cs (quietObs cs 0 n k) = .closeBeforeServiceStart := by
       simp [classify, quietObs, isCloseBeforeRunning, isCloseBeforeServiceStart, panicOk, Obs.leak, panicClauseApplies, hk, hk']
     unfold explain; rw [hc]; rfl
 
 private theorem run_site (fx : Fixes) (site : String) (c : Bool) (n : Nat)
-    (h : (run fx settledS (faultSched fx site)).map (fun s => (s.crashed, s.core.nRun)) = some (c, n)) :
-    ∃ s, run fx settledS (faultSched fx site) = some s ∧ s.crashed = c ∧ s.core.nRun = n := by
-  cases hrun : run fx settledS (faultSched fx site) with
+    (h : (run fx (faultStart site) (faultSched fx site)).map (fun s => (s.crashed, s.core.nRun)) = some (c, n)) :
+    ∃ s, run fx (faultStart site) (faultSched fx site) = some s ∧ s.crashed = c ∧ s.core.nRun = n := by
+  cases hrun : run fx (faultStart site) (faultSched fx site) with
   | none => simp [hrun] at h
   | some s => simp [hrun] at h; exact ⟨s, rfl, h.1, h.2⟩
 
-/-- the model's prediction after one injected panic in scenario "panic", plugin settled, Close at the end -/
-private def panicObs (cs : Case) (crashed : Bool) (nRun : Nat) : Obs :=
-  { survived := !crashed, closeCalled := !crashed, closeReturned := !crashed, errNotRunning := 0, errNotStarted := 0, errOther := 0,
+/-- the model's prediction after one injected panic in scenario "panic", plugin settled, Close (at `t`) at the end -/
+private def panicObs (cs : Case) (t : Nat) (crashed : Bool) (nRun : Nat) : Obs :=
+  { survived := !crashed, closeCalled := !crashed, closeReturned := !crashed, closedAtNs := t, errNotRunning := 0, errNotStarted := 0, errOther := 0,
     leakedServiceStart := 0, leakedService := 0, leakedAux := 0, leakedInflight := 0, ticking := false,
     bubbleEnded := !crashed, after2ndServiceStart := 0, after2ndService := 0, panicsInjected := 1, resumed := decide (nRun > 0),
     resumedWithinNs := if nRun > 0 then cs.intervalNs else 0, othersTicked := true, pipelineDone := !crashed }
 
-private theorem predict_panic (fx : Fixes) (cs : Case) (s : State)
-    (hrun : run fx settledS (faultSched fx cs.panicSite) = some s) :
-    predict fx cs 0 0 true 1 = panicObs cs s.crashed s.core.nRun := by
+private theorem predict_panic (fx : Fixes) (cs : Case) (t : Nat) (s : State)
+    (hrun : run fx (faultStart cs.panicSite) (faultSched fx cs.panicSite) = some s) :
+    predict fx cs t 0 0 true 1 = panicObs cs t s.crashed s.core.nRun := by
   simp [predict, panicObs, hrun, pc_a, pc_b, pc_ok]
 
-/-- on the current tree the model predicts, for a panic at ANY of the six sites, that the process survives and the
-    flow resumes with its next tick / poll — and the oracle accepts that prediction -/
-theorem spec_model_panic_contained (cs : Case) (hs : cs.scenario = "panic")
+/-- on the current tree the model predicts, for a panic at ANY of the seven sites — the six provider / pipeline /
+    post-processor calls and a panic that escapes the (restartable) result store's Start —, that the process survives
+    and the flow resumes (next tick / poll; for the escaping panic: after the recoverer's cool-down and restart) —
+    and the oracle accepts that prediction -/
+theorem spec_model_panic_contained (cs : Case) (t : Nat) (hs : cs.scenario = "panic")
     (h : cs.panicSite = "logProvider" ∨ cs.panicSite = "recoveryProvider" ∨ cs.panicSite = "upkeepGetter" ∨
-         cs.panicSite = "stateUpdater" ∨ cs.panicSite = "pipeline" ∨ cs.panicSite = "eventsProvider") :
-    spec cs (predict current cs 0 0 true 1) = true := by
-  have key : ∃ s, run current settledS (faultSched current cs.panicSite) = some s ∧ s.crashed = false ∧ s.core.nRun = 1 := by
-    rcases h with h | h | h | h | h | h <;> rw [h] <;> exact run_site current _ false 1 (by decide)
+         cs.panicSite = "stateUpdater" ∨ cs.panicSite = "pipeline" ∨ cs.panicSite = "eventsProvider" ∨
+         cs.panicSite = "resultStoreGC") :
+    spec cs (predict current cs t 0 0 true 1) = true := by
+  have key : ∃ s, run current (faultStart cs.panicSite) (faultSched current cs.panicSite) = some s ∧ s.crashed = false ∧ s.core.nRun = 1 := by
+    rcases h with h | h | h | h | h | h | h <;> rw [h] <;> exact run_site current _ false 1 (by decide)
   obtain ⟨s, hrun, hc, hn⟩ := key
-  rw [predict_panic current cs s hrun, hc, hn]
+  rw [predict_panic current cs t s hrun, hc, hn]
   simp [spec, panicObs, panicOk, Obs.leak, panicClauseApplies, resumeBound, hs]
   omega
 
 /-- without the worker-group fix the model predicts that a pipeline panic kills the process; the oracle says so -/
-theorem spec_reports_worker_panic_old (cs : Case) (h : cs.panicSite = "pipeline") :
-    spec cs (predict { current with worker := false } cs 0 0 true 1) = false ∧
-    explain cs (predict { current with worker := false } cs 0 0 true 1) = s!"panic-escaped: a panic injected in {cs.panicSite} terminated the process" := by
+theorem spec_reports_worker_panic_old (cs : Case) (t : Nat) (h : cs.panicSite = "pipeline") :
+    spec cs (predict { current with worker := false } cs t 0 0 true 1) = false ∧
+    explain cs (predict { current with worker := false } cs t 0 0 true 1) = s!"panic-escaped: a panic injected in {cs.panicSite} terminated the process" := by
   obtain ⟨s, hrun, hc, hn⟩ := run_site { current with worker := false } "pipeline" true 1 (by decide)
   rw [← h] at hrun
-  rw [predict_panic _ cs s hrun, hc, hn]
+  rw [predict_panic _ cs t s hrun, hc, hn]
   constructor
   · simp [spec, panicObs]
-  · have hcl : classify cs (panicObs cs true 1) = .panicEscaped := by simp [classify, panicObs]
+  · have hcl : classify cs (panicObs cs t true 1) = .panicEscaped := by simp [classify, panicObs]
     unfold explain; rw [hcl]; rfl
 
 /-- without the coordinator fix the model predicts that the event flow never resumes; the oracle says so -/
-theorem spec_reports_service_panic_not_resumed_old (cs : Case) (h : cs.panicSite = "eventsProvider") (hs : cs.scenario = "panic") :
-    spec cs (predict { current with poll := false } cs 0 0 true 1) = false ∧
-    explain cs (predict { current with poll := false } cs 0 0 true 1) = s!"panic-not-resumed: the flow calling {cs.panicSite} did not resume within the cool-down plus one tick after the panic" := by
+theorem spec_reports_service_panic_not_resumed_old (cs : Case) (t : Nat) (h : cs.panicSite = "eventsProvider") (hs : cs.scenario = "panic") :
+    spec cs (predict { current with poll := false } cs t 0 0 true 1) = false ∧
+    explain cs (predict { current with poll := false } cs t 0 0 true 1) = s!"panic-not-resumed: the flow calling {cs.panicSite} did not resume within the cool-down plus one tick after the panic" := by
   obtain ⟨s, hrun, hc, hn⟩ := run_site { current with poll := false } "eventsProvider" false 0 (by decide)
   rw [← h] at hrun
-  rw [predict_panic _ cs s hrun, hc, hn]
+  rw [predict_panic _ cs t s hrun, hc, hn]
   constructor
   · simp [spec, panicObs, panicOk, Obs.leak, panicClauseApplies, hs]
-  · have hcl : classify cs (panicObs cs false 0) = .panicNotResumed := by
+  · have hcl : classify cs (panicObs cs t false 0) = .panicNotResumed := by
       simp [classify, panicObs, Obs.leak, panicClauseApplies, hs]
     unfold explain; rw [hcl]; rfl
+
+/-! ### tie theorems: the model's decisions ARE the decision expressions regenerated from the source (`Gen.Src`) -/
+
+/-- `recoverer.Start`: `if m.running.Load() { return ErrServiceAlreadyStarted }` -/
+theorem recovererStart_matches_source (c : Core) :
+    stepCore c .sInit =
+      if c.spc = .init then (if Gen.Src.c18StartRefused c.running then some { c with spc := .done } else some { c with spc := .spawn })
+      else none := by
+  cases h : c.running <;> simp [stepCore, Gen.Src.c18StartRefused, h]
+
+/-- `recoverer.Close`: `if !m.running.Load() { return ErrServiceNotRunning }` — the test every Close-race theorem
+    ((a), (b), the cool-down) hinges on -/
+theorem recovererClose_matches_source (c : Core) :
+    stepCore c .cLoad =
+      if c.cpc = .load then
+        (if Gen.Src.c18CloseRefused c.running then some { c with cpc := .ret, cres := .notRunning } else some { c with cpc := .svcClose })
+      else none := by
+  cases h : c.running <;> simp [stepCore, Gen.Src.c18CloseRefused, h]
+
+/-- `recoverer.serviceStart`, `case err := <-m.stopped`: `err != nil`, then `errors.Is(err, errServiceStopped)` (cool-down and
+    restart) and `errors.Is(err, errServiceContextCancelled)` (clear the flag and return) -/
+theorem serviceStartRecv_matches_source (m : Msg) :
+    afterRecv m =
+      if Gen.Src.c18RecvIsError m.errCode 0 then
+        (if Gen.Src.c18RecvRestarts (decide (m = .stopped)) then .cool
+         else if Gen.Src.c18RecvStops (decide (m = .cancelled)) then .clear else .sel)
+      else .sel := by
+  cases m <;> simp [afterRecv, Msg.errCode, Gen.Src.c18RecvIsError, Gen.Src.c18RecvRestarts, Gen.Src.c18RecvStops]
+
+/-- the services with their own `running` flag use the recoverer's guard: metadata store, runner (v3) and the v2 report
+    coordinator (`if !running { start }` / `if running { stop }`, i.e. the same test with the branches swapped) -/
+theorem ownFlagGuards_match_source (running : Bool) :
+    flagStartRefuses running = Gen.Src.c18StartRefused running ∧
+    flagCloseRefuses running = Gen.Src.c18CloseRefused running ∧
+    flagStartRefuses running = Gen.Src.c18MetaStartRefused running ∧
+    flagCloseRefuses running = Gen.Src.c18MetaCloseRefused running ∧
+    flagStartRefuses running = Gen.Src.c18RunnerStartRefused running ∧
+    flagCloseRefuses running = Gen.Src.c18RunnerCloseRefused running ∧
+    flagStartRefuses running = !Gen.Src.c18V2StartProceeds running ∧
+    flagCloseRefuses running = !Gen.Src.c18V2CloseProceeds running := by
+  cases running <;> simp [flagStartRefuses, flagCloseRefuses, Gen.Src.c18StartRefused, Gen.Src.c18CloseRefused,
+    Gen.Src.c18MetaStartRefused, Gen.Src.c18MetaCloseRefused, Gen.Src.c18RunnerStartRefused, Gen.Src.c18RunnerCloseRefused,
+    Gen.Src.c18V2StartProceeds, Gen.Src.c18V2CloseProceeds]
+
+/-- `timeTicker.Start`: `if t.getterFn == nil { continue }` -/
+theorem tickerSkip_matches_source (getter nilFn : Nat) :
+    tickSkipped getter nilFn = Gen.Src.c18TickNoGetter getter nilFn := rfl
 
 /-- the cool-down the model's `coolElapsed` stands for is the regenerated constant -/
 theorem cooldown_is_ten_seconds : Gen.panicRestartWaitNs = 10 * 1000000000 := by decide
